@@ -6,6 +6,7 @@ import GomlVerif.Lemmas.LowerOkFn
 import GomlVerif.Lemmas.LowerOkFile
 import GomlVerif.Lemmas.LowerFuelFile
 import GomlVerif.Lemmas.LowerPrattOps
+import GomlVerif.Lemmas.LowerPrattFull
 import GomlVerif.Props.C11
 /-!
 # CST→AST lowering — properties of `Model/Lower.lean`
@@ -199,6 +200,36 @@ theorem lower_parse_print_ops_tree (C : List String) (t : Pratt.Ast) (hwf : Prat
     (c : Pratt.Cst) (hc : Pratt.parseCst (Pratt.printMin t 0) = some c) (hp : plain c = true) (s : St) :
     (lowerExprW C (depth c) (embed c) [] s).1 = some (toExpr t) :=
   lower_parse_print_ops C _ c t hc hp (Goml.Props.C11.parse_print t hwf) hf s
+
+/-- **`lower_parse_print`** — the whole image of `Pratt.Cst`: operators, parentheses, CALLS (identifier callee, postfix callee,
+call handed down to the operand of a prefix operator or into parentheses), FIELD access and tuple PROJECTION (applied, or handed
+down when the receiver chain starts at a prefix operator), with any pending list.  If the token list parses to `c` and
+`Pratt.parse` reads it as `a`, the REAL lowering model `Model/Lower.lean` (tied to `ast::lower` on the real rowan tree) lowers
+`embed c` to `toExpr a`, from any state, with fuel `dep c`.  Decidable side condition `okC C c`: no identifier in expression
+position is spelled like a constructor of the file (it would be an `EConstr`: `lower_ctor_iff`), and every tuple index fits
+`usize` (beyond it the real code reports "Invalid tuple index", see the `example` below).  This is the re-attachment of postfix
+chains to the operand of a prefix operator — where two real defects and two seeded changes lived — proved for the lowering model
+itself: `Lemmas/LowerPrattPost.lean` (`recvPrefix_embed = Pratt.prefixSpine`, `view_dot`, `view_call`, `postfix_embed`,
+`dotAccess_embed`, `parseUsize_digits`), `Lemmas/LowerPrattFull.lean` (`lower_full` / `lower_fullL`, mutual induction). -/
+theorem lower_parse_print (C : List String) (ts : List Pratt.Tok) (c : Pratt.Cst) (a : Pratt.Ast)
+    (hc : Pratt.parseCst ts = some c) (hok : okC C c = true) (ha : Pratt.parse ts = some a) (s : St) :
+    (lowerExprW C (dep c) (embed c) [] s).1 = some (toExpr a) := by
+  unfold Pratt.parse at ha
+  rw [hc] at ha
+  exact lower_full C c [] a (dep c) s hok ha (Nat.le_refl _)
+
+/-- … hence `parse_print` (Props/C11.lean) for the real lowering model, over identifiers and integers with all operators, calls,
+fields and projections: print any well-formed tree with minimal parentheses, parse, lower with `Model/Lower.lean` — the tree -/
+theorem lower_parse_print_tree (C : List String) (t : Pratt.Ast) (hwf : Pratt.wf t = true)
+    (c : Pratt.Cst) (hc : Pratt.parseCst (Pratt.printMin t 0) = some c) (hok : okC C c = true) (s : St) :
+    (lowerExprW C (dep c) (embed c) [] s).1 = some (toExpr t) :=
+  lower_parse_print C _ c t hc hok (Goml.Props.C11.parse_print t hwf) s
+
+/-- non-vacuity, the planted change of round 11: `- g ( x ) . h . k` arrives as `(((-g)(x)).h).k` and is lowered to
+`-(g(x).h.k)` — the call and BOTH field accesses go down to the operand of the prefix operator -/
+example : (lowerExprW ["Mk"] 5 (embed (.binary .Dot (.binary .Dot (.call (.prefix .Minus (.ident "g")) [.ident "x"]) (.ident "h")) (.ident "k"))) [] {}).1
+    = some (.un .neg (.field (.field (.call (.path ["g"]) [.path ["x"]]) "h") "k")) :=
+  lower_full ["Mk"] _ [] (.un .neg (.field (.field (.call (.var "g") [.var "x"]) "h") "k")) 5 {} (by decide) (by rfl) (by decide)
 
 /-- beyond `usize` the real code (`text.parse::<usize>()` in the `.` case) reports "Invalid tuple index"; `Pratt.digitsNat`
 has no such bound — which is why `fits` asks for indices below `2^64` -/
